@@ -353,23 +353,32 @@ def gndx_case(ctx, system):
         engine = NonBondEngine.from_topology(top.molecules, top, c17.BOX.copy(), ignore=list(case["ignore"]))
         table = sorted(([int(k[0]), int(k[1]), int(v)] for k, v in engine.nodes_to_gndx.items()), key=lambda t: t[2])
         impl = table
+        atypes = [str(x) for x in engine.atypes]
     except Exception as err:  # pylint: disable=broad-except
         impl = "error:" + type(err).__name__
-        table = []
-    req = dict(op="gndx", table=table,
+        table, atypes = [], []
+    names = [[str(m.nodes[n].get("template", m.nodes[n]["resname"])) for n in m.nodes] for m in top.molecules]
+    req = dict(op="gndx", table=table, names=names, atypes=atypes,
                mols=[c17.mol_json(s, c17.adjacency(m), case["ignore"]) for s, m in zip(case["mols"], top.molecules)])
-    return impl, req
+    return (impl, atypes), req
 
 
-def judge_gndx(ctx, system, impl, ans):
+def judge_gndx(ctx, system, impl_pair, ans):
+    impl, atypes = impl_pair
     replay = dict(stream="gndx", **system)
     if not ans.get("ok"):
         ctx.tie_broken("correspondence", "driver:C04", str(ans), replay)
         return
     ctx.correspond("from_topology-index-table", impl, [list(t) for t in ans["table"]], replay)
+    if not isinstance(impl, str):
+        ctx.correspond("from_topology-residue-types", atypes, ans["atypes"], replay)
     if isinstance(impl, str):
         ctx.oracle_fail("engine-construction-crashed", "NonBondEngine.from_topology raised %s with ignore=%s"
                         % (impl, system["ignore"]), replay)
+    elif not ans["spec_types"]:
+        ctx.oracle_fail("residue-type-of-another-residue", "with ignore=%s the engine's residue types %s are not those "
+                        "of the indexed residues (expected %s): the ignored molecules disturb the others"
+                        % (system["ignore"], atypes[:12], ans["atypes"][:12]), replay)
     elif not ans["spec"]:
         ctx.oracle_fail("index-table-wrong", "nodes_to_gndx %s does not index exactly the residues of the "
                         "non-ignored molecules by topology index (ignore=%s)" % (impl[:20], system["ignore"]), replay)
@@ -414,7 +423,7 @@ def gen_e2e_case(rng, mode=None):
     types = gen_types(rng, max_types=3, max_res=5, repeat_resids=False)
     names = list(types)
     listing = gen_listing(rng, types, max_count=2)
-    mode = mode or rng.choice(["c-prefix", "c-prefix", "mc-prefix", "res", "ign", "ign"])
+    mode = mode or rng.choice(["c-prefix", "c-prefix", "mc-prefix", "res", "mc-res", "ign", "ign"])
     ignore, build_res = [], []
     flat = flat_residues(types, listing)
     given = [False] * len(flat)          # residue is in the input file
@@ -428,7 +437,7 @@ def gen_e2e_case(rng, mode=None):
     elif mode in ("c-prefix", "mc-prefix"):
         cut = rng.randint(0, len(flat))
         given = [i < cut for i in range(len(flat))]
-    elif mode == "res":
+    elif mode in ("res", "mc-res"):
         resnames = sorted({r[3] for r in flat})
         build_res = [n for n in resnames if rng.random() < 0.4] or [rng.choice(resnames)]
         # everything that is not named for rebuilding is given, possibly only up to a cut
@@ -468,7 +477,7 @@ def run_e2e(case, tmpdir):
     flat = flat_residues(types, listing)
     top_path, in_path, out_path = Path(tmpdir) / "sys.top", Path(tmpdir) / "in.gro", Path(tmpdir) / "out.gro"
     write_top(top_path, types, listing)
-    meta = case["mode"] == "mc-prefix"
+    meta = case["mode"] in ("mc-prefix", "mc-res")
     # residue centres on a jittered lattice; atoms of a residue 0.12 nm apart along z
     centres = layout_points(len(flat), rng)
     atoms = []
@@ -514,6 +523,18 @@ def run_e2e(case, tmpdir):
             return False                  # a step that finds no place
         return orig_update(self, vector_bundle, current_node, prev_node)
 
+    from polyply.src import build_system
+    captured = []
+    real_engine_cls = build_system.NonBondEngine
+
+    class CapturingEngine(real_engine_cls):   # the real class; only remembers what from_topology returned
+        @classmethod
+        def from_topology(cls, molecules, *args, **kwargs):
+            engine = super().from_topology(molecules, *args, **kwargs)
+            captured.append((engine, list(molecules)))
+            return engine
+
+    build_system.NonBondEngine = CapturingEngine
     random_walk.RandomWalk.run_molecule = failing_run
     random_walk.RandomWalk.update_positions = failing_update
     np.random.seed(case["seed"] % (2 ** 31))
@@ -538,6 +559,14 @@ def run_e2e(case, tmpdir):
     finally:
         random_walk.RandomWalk.run_molecule = orig_run
         random_walk.RandomWalk.update_positions = orig_update
+        build_system.NonBondEngine = real_engine_cls
+    # the residue type the engine uses for every residue it indexes (sizes, step lengths, forces)
+    result["wrong_types"] = []
+    for engine, molecules in captured:
+        for (midx, node), gndx in engine.nodes_to_gndx.items():
+            want = molecules[midx].nodes[node].get("template", molecules[midx].nodes[node]["resname"])
+            if str(engine.atypes[gndx]) != str(want):
+                result["wrong_types"].append([int(midx), int(node), str(engine.atypes[gndx]), str(want)])
     result["forced"] = dict(attempts=state["attempts"], steps=state["steps"])
     return result, req, residues
 
@@ -561,6 +590,9 @@ def judge_e2e(ctx, case, result, ans, residues):
         # -c together with -mc: every deviation is the one known finding
         ctx.oracle_fail("combined-c-and-mc" if combined else shape, text, replay)
 
+    if result.get("wrong_types"):
+        fail("residue-type-of-another-residue", "the engine builds residue (molecule %d, node %d) with the size of %s, "
+             "it is a %s (%d residues affected): %s" % (*result["wrong_types"][0], len(result["wrong_types"]), what))
     if result["error"]:
         fail("gen-coords-crashed", "gen_coords raised %s on %s" % (result["error"], what))
     else:
